@@ -85,6 +85,9 @@ MUTANTS = [
     ("run_skips_destroy_on_start_failure", "run.c", "  r = reproc_start(process, argv, options);\n  if (r < 0) {\n    goto finish;\n  }", "  r = reproc_start(process, argv, options);\n  if (r < 0) {\n    return r;\n  }", "reproc_run_ex", "C05+C16/run.destroy_is_last_and_exactly_once"),
     ("run_ignores_drain_error", "run.c", "  r = reproc_drain(process, out, err);\n  if (r < 0) {\n    goto finish;\n  }", "  r = reproc_drain(process, out, err);", "reproc_run_ex", "C16/run.stop_after_successful_drain"),
     ("path_relative_accepts_plain_name", "process.posix.c", "strchr(path + 1, '/') != NULL", "1", "path_is_relative", "C03/path_is_relative.non_empty_not_absolute_with_directory_component"),
+    ("path_any_long_path_with_late_separator", "process.posix.c", "strchr(path + 1, '/') != NULL", "memchr(path + 1, '/', strlen(path) > 64 ? 64 : strlen(path)) != NULL", "path_is_relative_any", "C03/path_is_relative.non_empty_not_absolute_with_directory_component"),
+    ("path_any_scan_past_the_terminator", "process.posix.c", "return strlen(path) > 0 && path[0] != '/' && strchr(path + 1, '/') != NULL;", "return path[0] != '/' && strchr(path + 1, '/') != NULL;", "path_is_relative_any", "C14/path_is_relative.scan_starts_inside_the_string"),
+    ("path_any_absolute_counts_as_relative", "process.posix.c", "strlen(path) > 0 && path[0] != '/' && strchr", "strlen(path) > 0 && strchr", "path_is_relative_any", "C03/path_is_relative.non_empty_not_absolute_with_directory_component"),
     ("prepend_realloc_one_short", "process.posix.c", "realloc(cwd, cwd_size + path_size + 1)", "realloc(cwd, cwd_size + path_size)", "path_prepend_cwd", "path_prepend_cwd.pointer_dereference"),
     ("prepend_leaks_on_getcwd_error", "process.posix.c", "    if (errno != ERANGE) {\n      free(cwd);\n      return NULL;\n    }", "    if (errno != ERANGE) {\n      return NULL;\n    }", "path_prepend_cwd", "__CPROVER__start.memory-leak.1"),
     ("prepend_no_separator", "process.posix.c", "  if (cwd[cwd_size - 1] != '/') {", "  if (0) {", "path_prepend_cwd", "C03/path_prepend_cwd.cwd_then_one_slash_then_path"),
